@@ -582,5 +582,10 @@ def describe(case, o):
     return d
 
 
+def timeout_ok(case):
+    # only the cases that run SciPy's optimisation can legitimately exceed the per-case limit
+    return case['kind'] == 'bounds' or case.get('xkind') == 'optimum'
+
+
 def matches_finding(f, case, o, v):
     return False
